@@ -374,7 +374,8 @@ def tcpLine (ws : List String) : Option (List String) :=
   match ws with
   | [_, closer, how, rb, ch, sizes] => do
       if closer ≠ "sd" ∧ closer ≠ "ss" ∧ closer ≠ "cs" then none
-      if how ≠ "cb" ∧ how ≠ "op" ∧ how ≠ "opu" then none
+      -- `opuS`: the `opu` run judged against the property itself (every byte, then EOF) instead of the code as it is
+      if how ≠ "cb" ∧ how ≠ "op" ∧ how ≠ "opu" ∧ how ≠ "opuS" then none
       let rb ← rb.toNat?; let ch ← ch.toNat?
       if rb < 1024 ∨ rb > 1048576 ∨ ch < 256 ∨ ch > 1048576 then none
       let parts ← (sizes.splitOn ",").mapM fun t =>
